@@ -268,6 +268,10 @@ func (c *Ctx) runPath(p []int) (outcome string) {
 				case *goPanic:
 					outcome = "completed"
 					c.posOverride = e.pos
+					if strings.HasPrefix(e.what, "UNMODELLED") {
+						c.incomplete = append(c.incomplete, e.what+" at "+e.pos)
+						return
+					}
 					if strings.Contains(e.pos, "zz_verif_") && !strings.HasPrefix(e.what, "verifPanic:") {
 						// a panic raised by harness code itself (an unmodelled fake method or a harness bug)
 						c.incomplete = append(c.incomplete, "UNMODELLED/harness panic: "+e.what+" at "+e.pos)
